@@ -80,11 +80,11 @@ Report(S, line) == IF S = {} THEN TRUE
 TraceInit == l = 1 /\ bad = {}
 
 TBlock == /\ l <= Len(Trace) /\ Trace[l].ev = "Block" /\ ~Trace[l].refused /\ l' = l + 1
-          /\ LET b == Clauses(Trace[l]) IN bad' = bad \cup b /\ Report(b \ bad, l)
+          /\ LET b == Clauses(Trace[l]) IN bad' = bad \cup b /\ Report(b, l)
 
 \* C11a: replaying the served diffs reproduces every canonical identity root
 TFollower == /\ l <= Len(Trace) /\ Trace[l].ev = "Follower" /\ l' = l + 1
-             /\ LET b == IF Trace[l].bad # <<>> THEN {"FollowerRoot"} ELSE {} IN bad' = bad \cup b /\ Report(b \ bad, l)
+             /\ LET b == IF Trace[l].bad # <<>> THEN {"FollowerRoot"} ELSE {} IN bad' = bad \cup b /\ Report(b, l)
 
 TOther == /\ l <= Len(Trace) /\ (Trace[l].ev \notin {"Block", "Follower"} \/ (Trace[l].ev = "Block" /\ Trace[l].refused))
           /\ l' = l + 1 /\ UNCHANGED bad
